@@ -34,7 +34,8 @@ OutflowOf(d) == [t \in 1..N |-> [lab \in Labs |-> (d[t][lab] * 2 + t) % 3]]
 
 \* the stock-driven class needs a non-zero diagonal; labels without one are left unspecified (RNaN) -
 \* but they must not disturb the other labels (C16)
-Classes == {"flow", "inflow"} \cup (IF \E lab \in Labs : SolvableLab(lab) THEN {"stock"} ELSE {})
+\* "stockint": the prescribed stock is the integer driver itself (e.g. unit counts), not one derived from an inflow
+Classes == {"flow", "inflow"} \cup (IF \E lab \in Labs : SolvableLab(lab) THEN {"stock", "stockint"} ELSE {})
 Init == /\ cfg \in {[cls |-> c, driver |-> d] : c \in Classes, d \in Drivers}
         /\ res = [pending |-> TRUE] /\ phase = "cfg"
 
@@ -54,9 +55,9 @@ Compute(c) ==
              outflow |-> Tab1(LAMBDA t, lab : IOutflow(d, t, lab)),
              sbc |-> Tab2(LAMBDA t, cc, lab : ISbc(d, t, cc, lab)),
              obc |-> Tab2(LAMBDA t, cc, lab : IObc(d, t, cc, lab))]
-      [] c.cls = "stock" ->
-            \* the prescribed stock is the one an inflow-driven model computes from d
-            LET st  == Tab1(LAMBDA t, lab : IStock(d, t, lab))
+      [] c.cls \in {"stock", "stockint"} ->
+            \* the prescribed stock is the one an inflow-driven model computes from d ("stock"), or d itself ("stockint")
+            LET st  == IF c.cls = "stock" THEN Tab1(LAMBDA t, lab : IStock(d, t, lab)) ELSE RDriver(d)
                 rin == Tab1(LAMBDA t, lab : IF SolvableLab(lab) THEN SInflow(st, t, lab) ELSE RNaN)
                 Gd1(f(_, _)) == Tab1(LAMBDA t, lab : IF SolvableLab(lab) THEN f(t, lab) ELSE RNaN)
                 Gd2(f(_, _, _)) == Tab2(LAMBDA t, cc, lab : IF SolvableLab(lab) THEN f(t, cc, lab) ELSE RNaN)
@@ -82,7 +83,7 @@ EmitInv == (Emit /\ Done) =>
 ASSUME Prop_C08_TableValid == TableValid          \* the exact tables are valid survival tables
 ASSUME Prop_C16_Shift == ShiftInvariantDef(1990) /\ ShiftInvariantDef(-7)
 
-OkLab(lab) == cfg.cls # "stock" \/ SolvableLab(lab)
+OkLab(lab) == cfg.cls \notin {"stock", "stockint"} \/ SolvableLab(lab)
 Prop_C03 == Done => \A t \in 1..N, lab \in Labs : OkLab(lab) =>
     RSub(res.stock[t][lab], IF t = 1 THEN RInt(0) ELSE res.stock[t - 1][lab])
        = RMul(DtR(t), RSub(res.inflow[t][lab], res.outflow[t][lab]))
@@ -105,11 +106,14 @@ Prop_C09 ==
 
 \* stock-driven is the inverse of inflow-driven
 Prop_C10 ==
-    (Done /\ cfg.cls = "stock") =>
-      \A t \in 1..N, lab \in {l \in Labs : SolvableLab(l)} :
-        /\ res.inflow[t][lab] = RInt(cfg.driver[t][lab])
-        /\ res.outflow[t][lab] = IOutflow(cfg.driver, t, lab)
-        /\ RStockOf(res.inflow, t, lab) = res.stock[t][lab]
+    /\ (Done /\ cfg.cls = "stock") =>
+          \A t \in 1..N, lab \in {l \in Labs : SolvableLab(l)} :
+            /\ res.inflow[t][lab] = RInt(cfg.driver[t][lab])
+            /\ res.outflow[t][lab] = IOutflow(cfg.driver, t, lab)
+            /\ RStockOf(res.inflow, t, lab) = res.stock[t][lab]
+    \* driving an inflow-driven model with the inflow found reproduces the prescribed stock
+    /\ (Done /\ cfg.cls = "stockint") =>
+          \A t \in 1..N, lab \in {l \in Labs : SolvableLab(l)} : RStockOf(res.inflow, t, lab) = RInt(cfg.driver[t][lab])
 
 Trunc(d, k) == [t \in 1..N |-> [lab \in Labs |-> IF t <= k THEN d[t][lab] ELSE 0]]
 OnlyLab(d, l0) == [t \in 1..N |-> [lab \in Labs |-> IF lab = l0 THEN d[t][lab] ELSE 0]]
